@@ -683,6 +683,8 @@ class Evaluator:
                 return v.const != 0
             return BoolVal(f"{v!r} != 0", {"nonzero": v})
         if isinstance(v, TRef):
+            if v.typ[0] == "cls" and not any(c_.find_method(m_) is not None for c_ in v.typ[1].mro() for m_ in ("__bool__", "__len__")) and (not any(x.endswith("NamedTuple") for x in v.typ[1].ext_bases) or v.typ[1].init_params()):
+                return True  # an instance (declared non-optional) of a class without __bool__ / __len__ is truthy
             return BoolVal(f"truthy({v.path})", {"truthy": v.path})
         if isinstance(v, SBytes):
             if not v.segs:
@@ -882,6 +884,11 @@ class Evaluator:
         dotted = self.repo.dotted(fn, self.mod)
         kw = {k.arg: k.value for k in e.keywords if k.arg}
         # ---- builtins on values
+        if dotted == "bool" and len(e.args) == 1 and not e.keywords:
+            v0 = self.eval(e.args[0], st)
+            if not isinstance(v0, Lin):
+                # bool(x) of an object / optional / byte string is its truth value: the same condition as `if x:`
+                return self.truth(v0, e.args[0], st)
         if dotted == "sum" and 1 <= len(e.args) <= 2 and not e.keywords:
             # sum of a list / generator of integers whose elements are known: the sum of the elements
             try:
